@@ -136,6 +136,7 @@ Ltac bk_facts Hf := fuel_split; repeat match goal with
   | E : run _ ?k ?s1 = (_, ?s2, ?o1), Hf : fuel_ok ?o1 = true |- _ =>
     let F := fresh "F" in let N := fresh "N" in
     pose proof (run_frame _ _ _ _ _ _ E Hf) as F; cbn beta iota in F; destruct F as (N & F); unfold no_idx in N;
+    let Q := fresh "Q" in first [ pose proof (fr_pend _ _ F) as Q | pose proof (fk_pend _ _ _ F) as Q ];
     first [ apply fr_ridx in F | apply fk_ridx in F ]; clear E
   | E : do_fetch _ = _ |- _ => apply do_fetch_bk in E; destruct E
   | E : handle_offset_response _ _ _ = _ |- _ => apply handle_offset_response_bk in E; destruct E
@@ -143,12 +144,22 @@ Ltac bk_facts Hf := fuel_split; repeat match goal with
   | E : auto_commit _ _ = _ |- _ => let N := fresh "N" in apply auto_commit_fr in E; destruct E as (E & N); unfold no_idx in N; apply fr_ridx in E
   | E : send_commit_request _ _ _ = _ |- _ => let N := fresh "N" in apply send_commit_request_fr in E; destruct E as (E & N); unfold no_idx in N; apply fr_ridx in E
   end.
+Ltac bk_err := repeat match goal with
+  | E : handle_fetch_error _ ?x = _ |- _ =>
+    let X := fresh "X" in assert (X : 0 <= s_ridx x) by (psimpl; lia); let Y := fresh "Y" in pose proof (handle_error_bk true _ _ _ _ _ E X) as Y; clear E X
+  | E : handle_offset_error _ ?x = _ |- _ =>
+    let X := fresh "X" in assert (X : 0 <= s_ridx x) by (psimpl; lia); let Y := fresh "Y" in pose proof (handle_error_bk false _ _ _ _ _ E X) as Y; clear E X
+  end;
+  repeat match goal with X : BK _ _ _ |- _ => unfold BK in X; psimpl; destruct X as [(? & ?)|(? & ?)] end.
 Ltac bk_close :=
+  bk_err;
+  repeat match goal with D : ?x = _ |- context [if ?x then _ else _] => rewrite D end; cbn beta iota;
   unfold BK; psimpl; repeat rewrite retry_idxs_app;
   repeat match goal with N : retry_idxs ?x = _ |- _ => rewrite N end;
+  repeat match goal with N : s_pend ?x = _ |- _ => rewrite N end;
   cbn [retry_idxs app T_COMMIT T_LOOPER T_RETRY Z.eqb Pos.eqb andb];
-  first [ left; split; [reflexivity | psimpl; try reflexivity; try congruence; try lia; intuition (try congruence; try lia)]
-        | right; split; [reflexivity | psimpl; try reflexivity; try congruence; try lia; intuition (try congruence; try lia)] ].
+  first [ left; split; [first [reflexivity | congruence] | psimpl; try reflexivity; try congruence; try lia; intuition (try congruence; try lia)]
+        | right; split; [first [reflexivity | congruence] | psimpl; try reflexivity; try congruence; try lia; intuition (try congruence; try lia)] ].
 
 Theorem backoff_reachable fuel s e s' o : Reach s -> step fuel s e = (s', o) -> fuel_ok o = true ->
   backoff_step (s, e, o, s') = true.
@@ -159,6 +170,63 @@ Proof.
   assert (Hpk : parked s = true -> s_ridx s = 0) by (intro Hx; destruct (j1 _ _ HJ Hx) as (_ & x & _); exact x).
   pose proof (j9 _ _ HJ) as (_ & H9).
   unfold handle in H. cbn zeta in H. unfold success_reply. destruct e.
-  - (* start *) unfold flush_pend in H. mi H; bk_facts Hf; try bk_close. Show.
-Abort.
+  - (* start *) unfold flush_pend, do_fetch, startd_errback in H. mi H; bk_close.
+  - (* stop *) unfold api_stop in H. mi H; bk_facts Hf; bk_close.
+  - (* shutdown *) unfold flush_pend in H. mi H; split_state_if; bk_facts Hf; bk_close.
+  - (* commit *) unfold api_commit in H. mi H; bk_facts Hf; bk_close.
+  - (* offset reply *) mi H; bk_facts Hf; bk_close.
+  - (* fetch reply *) mi H; bk_facts Hf; bk_close.
+  - (* request failure *) mi H; bk_facts Hf; bk_close.
+  - (* plan *) mi H; bk_close.
+  - (* processor result *) mi H; bk_facts Hf; bk_close.
+  - (* commit ok *) mi H; bk_facts Hf; bk_close.
+  - (* commit failure *) unfold handle_commit_error in H. mi H; bk_facts Hf; bk_close.
+  - (* retry timer *) mi H; bk_facts Hf; bk_close.
+  - (* commit retry timer *) mi H; bk_facts Hf; bk_close.
+  - (* tick *) mi H; bk_facts Hf; bk_close.
+Qed.
+
+(* the same without mentioning the model's own counter: the k-th delay scheduled since the last successful reply has index k *)
+Fixpoint backoff_trace (c : Z) (tr : list tstep) : bool :=
+  match tr with
+  | [] => true
+  | t :: r =>
+    match counts_from (if success_reply (t_pre t) (t_ev t) then 0 else c) (retry_idxs (t_out t)) with
+    | Some c' => backoff_trace c' r
+    | None => false
+    end
+  end.
+
+Theorem backoff_run fuel : forall evs s, Reach s -> all_fuel_ok (run_steps fuel s evs) = true ->
+  backoff_trace (s_ridx s) (run_steps fuel s evs) = true.
+Proof.
+  induction evs as [|e evs IH]; intros s HR Hf; cbn [run_steps] in *; [reflexivity|].
+  destruct (step fuel s e) as [s1 o] eqn:E. cbn [all_fuel_ok forallb t_out] in Hf. apply andb_prop in Hf. destruct Hf as (Hf1 & Hf2).
+  pose proof (reach_step _ _ _ _ _ HR E Hf1) as HR1. pose proof (backoff_reachable _ _ _ _ _ HR E Hf1) as HB.
+  cbn [backoff_trace t_pre t_ev t_out]. unfold backoff_step in HB.
+  destruct (counts_from (if success_reply s e then 0 else s_ridx s) (retry_idxs o)) as [c'|]; [|discriminate HB].
+  apply Z.eqb_eq in HB. subst c'. apply IH; assumption.
+Qed.
+
+(* ---- C13 over whole runs: every stop() of a running consumer returns and leaves it quiescent ---- *)
+Definition stop_ok (t : tstep) : Prop :=
+  t_ev t = EStop -> s_startd (t_pre t) <> None ->
+  returned (t_out t) = true /\ quiescent (t_post t) = true /\ existsb is_activity (t_out t) = false /\
+  s_susp (t_post t) = false /\ s_looper (t_post t) = None /\ s_lp (t_post t) = s_lp (t_pre t) /\ s_maxatt (t_post t) = n0 /\
+  In (ORet (encv (s_lp (t_pre t)))) (t_out t) /\ (forall v, In (OStartD true v) (t_out t) -> v = encv (s_lp (t_pre t))).
+
+Lemma run_steps_step fuel : forall evs s t, In t (run_steps fuel s evs) -> step fuel (t_pre t) (t_ev t) = (t_post t, t_out t).
+Proof.
+  induction evs as [|e evs IH]; intros s t Hin; cbn [run_steps] in Hin; [contradiction|].
+  destruct (step fuel s e) as [s1 o] eqn:E. destruct Hin as [<-|Hin]; [cbn; exact E | eapply IH; eauto].
+Qed.
+
+Theorem stop_run fuel evs s : Reach s -> all_fuel_ok (run_steps fuel s evs) = true -> Forall stop_ok (run_steps fuel s evs).
+Proof.
+  intros HR Hf. pose proof (reach_run fuel evs s HR Hf) as HA. rewrite Forall_forall in *. intros t Hin.
+  destruct (HA t Hin) as (H1 & _). intros He Hs.
+  pose proof (run_steps_step _ _ _ _ Hin) as E. rewrite He in E.
+  assert (Hft : fuel_ok (t_out t) = true) by (unfold all_fuel_ok in Hf; rewrite forallb_forall in Hf; apply Hf; exact Hin).
+  exact (stop_quiescent_reachable _ _ _ _ H1 E Hft Hs).
+Qed.
 End Run.
